@@ -23,6 +23,10 @@ RULE = ('(a) every Unicode code point except surrogates as a one-character '
         'Non-trivial: value contains one of & < > " \' or is bytes with a '
         'non-ASCII character; distinct = distinct (value, form-set) hashes '
         '(single code points are distinct by construction).')
+RULE += (
+         'Also: insertion contexts with tainted / plain neighbours in '
+         'the same body and inside a sub-template whose encoding '
+         "differs from the page's. ")
 ASSUMPTIONS = [
     'html.escape(str, quote=True) defines the expected text',
     'identity options are applied only when they are the identity on the value '
